@@ -180,6 +180,30 @@ def sockhDestroy (t : Two) (h : Heap) : Except Err (Two × Heap) := do
   let h ← free t.a h
   pure ({}, h)
 
+/-! ## net/socket_evloop_pipe.c, net/socket.c -/
+
+/-- `muggle_socket_evloop_pipe_init`: `pipe(fds)`; the two contexts hold the descriptors
+(`a` = reader, `b` = writer); on failure both stay `MUGGLE_INVALID_SOCKET` -/
+def evpipeInit (f : Sched) (h : Heap) : Except Err (Two × Bool × Heap) :=
+  let (r, w, h) := openPipe f h
+  if r = .null then .ok ({}, false, h) else .ok ({ a := r, b := w }, true, h)
+
+/-- `muggle_socket_evloop_pipe_destroy`: close what is open, reset to invalid -/
+def evpipeDestroy (t : Two) (h : Heap) : Except Err (Two × Heap) := do
+  let h ← closeFd t.a h
+  let h ← closeFd t.b h
+  pure ({}, h)
+
+/-- `muggle_socket_create` -/
+def sockCreate (f : Sched) (h : Heap) : Except Err (One × Bool × Heap) :=
+  let (d, h) := openFd f h
+  if d = .null then .ok ({}, false, h) else .ok ({ p := d }, true, h)
+
+/-- `muggle_socket_close` (the harness then forgets the descriptor) -/
+def sockClose (o : One) (h : Heap) : Except Err (One × Heap) := do
+  let h ← closeFd o.p h
+  pure ({}, h)
+
 /-! ## log/log_async_logger.c -/
 
 /-- `muggle_async_logger_init`: channel with mutex writer / futex reader, then the thread -/
